@@ -1,6 +1,10 @@
 use std::io::{BufRead, Write};
 use verif_harness::{Ctx, Tier, property, rng::Rng};
 
+// C08: counting allocator (counts only on threads that opted in; see c08alloc.rs)
+#[global_allocator]
+static GLOBAL: verif_harness::c08alloc::Counting = verif_harness::c08alloc::Counting;
+
 fn usage() -> ! {
     eprintln!("usage: hx <Cxx> gen --seed S --tier quick|thorough | hx <Cxx> run [--oracle-out FILE]");
     std::process::exit(2)
@@ -68,6 +72,9 @@ fn main() {
                     }
                 };
                 writeln!(out, "{}", outline.replace(['\n', '\t'], " ")).unwrap();
+                if args[1] == "C08" {
+                    out.flush().unwrap(); // a crash of the process must be attributed to the right case
+                }
                 if let Some(o) = oracle.as_mut() {
                     for f in &ctx.oracle_failures {
                         writeln!(o, "{}\t{}", idx, f.replace(['\n', '\t'], " ")).unwrap();
